@@ -302,9 +302,14 @@ impl Iterator for MoveGen {
 
     /// Find the next chess move.
     fn next(&mut self) -> Option<ChessMove> {
-        if self.index >= self.moves.len()
-            || self.moves[self.index].bitboard & self.iterator_mask == EMPTY
+        // remove_mask() and remove_move() can empty an entry anywhere in the list; skip such
+        // entries instead of treating the first one as the end of the moves
+        while self.index < self.moves.len()
+            && self.moves[self.index].bitboard & self.iterator_mask == EMPTY
         {
+            self.index += 1;
+        }
+        if self.index >= self.moves.len() {
             // are we done?
             None
         } else if self.moves[self.index].promotion {
